@@ -37,6 +37,51 @@ def read_table(ad):
 
 
 
+def customise_a_private_serializer(ctx, g):
+    """INDEPENDENCE of defaults: an application builds its OWN Serialization() and customises it the documented way (its `codecs`
+    table: a codec replaced, one removed, one added).  That is about that instance: the serializer every AuxData table uses, and any
+    Serialization() built later, still speak the grammar of the property.  (Run LAST: were the tables shared, nothing after it would mean anything.)"""
+    import io
+    ser = g.serialization
+
+    class Upper(ser.Codec):
+        @staticmethod
+        def decode(raw_bytes, serialization, subtypes, get_by_uuid=None):
+            return "PRIVATE"
+
+        @staticmethod
+        def encode(out, val, serialization, subtypes, **kw):
+            out.write(b"PRIVATE")
+    try:
+        mine = ser.Serialization()
+        for k in ("string", "Addr", "uint8_t", "sequence", "UUID"):
+            mine.codecs[k] = Upper
+        mine.codecs.pop("variant", None)
+        mine.codecs.pop("mapping", None)
+        mine.codecs["private"] = Upper
+        buf = io.BytesIO()
+        mine.encode(buf, "x", "string")
+        if buf.getvalue() != b"PRIVATE":
+            ctx.add("oracle", "roundtrip", "a codec registered on a private Serialization instance is not used by that instance", {"type_name": "string"})
+        ctx.count("private_serializer_customised")
+    except Exception as e:  # noqa: BLE001
+        ctx.count("private_serializer_customisation_refused:" + exc_name(g, e))
+    other = ser.Serialization()
+    for who, S in (("the serializer of AuxData", g.AuxData.serializer), ("a Serialization() built afterwards", other)):
+        for tn, v, bs in (("string", "h\u00e9", (3).to_bytes(8, "little") + "h\u00e9".encode()), ("uint8_t", 7, b"\x07"),
+                          ("sequence<uint8_t>", [1], (1).to_bytes(8, "little") + b"\x01"), ("mapping<uint8_t,uint8_t>", {1: 2}, (1).to_bytes(8, "little") + b"\x01\x02")):
+            buf = io.BytesIO()
+            try:
+                S.encode(buf, v, tn)
+                got = (buf.getvalue(), S.decode(bs, tn))
+            except Exception as e:  # noqa: BLE001
+                got = exc_name(g, e)
+            ctx.case("after-private-customisation:%s:%s" % (who, tn), True)
+            if got != (bs, v):
+                ctx.add("oracle", "roundtrip", "after ANOTHER Serialization instance was customised, %s encodes / decodes type %s as %r (expected %r)" % (who, tn, got, (bs, v)),
+                        {"type_name": tn, "who": who})
+
+
 def run(ctx):
     g = gtirb_from_repo.load()
     n = 1500 if ctx.quick else 25000
@@ -165,6 +210,7 @@ def run(ctx):
     import codec_cases as _cc
     for _k, _v in _cc.FORMS.items():
         ctx.count("encode_value_form:" + _k, _v)
+    customise_a_private_serializer(ctx, g)
     ctx.cov["rule"] = ("leaf boundary catalogue + random type trees (depth<=5) with random values; non-trivial = container type or "
                        "string/float/UUID/Offset leaf; distinct = distinct (type name, canonical value); in_theorem_domain counts cases "
                        "for which the Coq predicate wt (premise of decode_encode) evaluates to true")
